@@ -329,12 +329,6 @@ class Fingerprint(object):
 
         new_fp = cls.from_indices(fp.indices, bits=fp.bits, level=fp.level)
         new_fp.update_props(fp.props)
-        new_fp.folded_fingerprint = dict(
-            [
-                (k, v.__class__.from_fingerprint(v))
-                for k, v in fp.folded_fingerprint.items()
-            ]
-        )
         return new_fp
 
     @classmethod
@@ -1078,12 +1072,6 @@ class CountFingerprint(Fingerprint):
         counts = dict([(i, c) for i, c in fp.counts.items() if c > 0])
         new_fp = cls.from_counts(counts, bits=fp.bits, level=fp.level)
         new_fp.update_props(fp.props)
-        new_fp.folded_fingerprint = dict(
-            [
-                (k, v.__class__.from_fingerprint(v))
-                for k, v in fp.folded_fingerprint.items()
-            ]
-        )
         return new_fp
 
     def reset(self, *args, **kwargs):
